@@ -188,6 +188,8 @@ structure Run where
   mismatch : Option String := none
   /-- last value written to each lock word by the implementation -/
   words : List (Nat × Nat) := []
+  /-- threads whose latest quantum announced the end of a grant (`G-`): their releasing operation is still to come -/
+  pendingRel : List Nat := []
 
 def mcsParams : Mcs.Params :=
   { C := Gen.mcsConsts, ord := Gen.mcsOrders, publishStore := Gen.mcsPublishIsStore }
@@ -264,6 +266,7 @@ def processQ (r : Run) (line : String) (st : Stats) : Run × Stats :=
           | some (.massign d sv) => { m1 with opt := optRes m1.opt tid "massign" d sv res }
           | some (.mctor d sv) => { m1 with opt := optRes m1.opt tid "mctor" d sv res }
           | some (.dtor v) => { m1 with opt := optRes m1.opt tid "dtor" v 0 res }
+          | some (.setver v val) => { m1 with opt := optRes m1.opt tid "setver" v val.toNat res }
           | _ => m1
         | _ => m1
       else if tok.startsWith "R" then monResult r' tid tok
@@ -291,7 +294,8 @@ def processQ (r : Run) (line : String) (st : Stats) : Run × Stats :=
         | some lk, some w => (r.words.filter (·.1 != lk)) ++ [(lk, w)]
         | _, _ => r.words
       else r.words
-    let r := { r with mon := mon, step := r.step + 1, words := words }
+    let pendingRel := (r.pendingRel.filter (· != tid)) ++ (if toks.any (fun t => t.startsWith "G-") then [tid] else [])
+    let r := { r with mon := mon, step := r.step + 1, words := words, pendingRel := pendingRel }
     match r.mismatch with
     | some _ => (r, st)
     | none =>
@@ -357,7 +361,15 @@ partial def loop (h : IO.FS.Stream) (cur : Option Run) (pend : Scen) (st : Stats
       | some (k, .outside w) => s!" proto=outside:{k}:{w.replace " " "_"}"
       | some (k, .fail _) => s!" proto=FAIL:{k}"
       | none => ""
-    let bads := [r.mon.bad, r.mon.th.bad, r.mon.opt.bad].filterMap id
+    -- scenario-level tags (premises of known findings) apply to every message of the scenario, also to those that were
+    -- recorded before the premise failed
+    let retag (b : String) : String :=
+      " || ".intercalate ((b.splitOn " || ").map fun m =>
+        let m := if r.mon.th.nonFresh && !(m.splitOn "[history contains a non-fresh EnterEpoch store]").length > 1
+          then m ++ " [history contains a non-fresh EnterEpoch store]" else m
+        if r.mon.th.nested && !(m.splitOn "[a thread held two guards at once]").length > 1
+          then m ++ " [a thread held two guards at once]" else m)
+    let bads := [r.mon.bad, r.mon.th.bad.map retag, r.mon.opt.bad].filterMap id
     let monS := if bads.isEmpty then "ok" else "FAIL " ++ " || ".intercalate bads
     let hbS := match r.mon.hb.bad with | some m => s!"FAIL {m}" | none => "ok"
     let hasGuard := bads.any fun b => (b.splitOn " || ").any fun m => m.startsWith "guard:"
@@ -369,7 +381,8 @@ partial def loop (h : IO.FS.Stream) (cur : Option Run) (pend : Scen) (st : Stats
       if r.sc.comp == "mcs" then status == "ok" && w != 0
       else if r.sc.comp == "opt" then (Gen.opt r.sc.retry).anyLock (BitVec.ofNat 64 w)
       else (Gen.pess r.sc.retry).anyLock (BitVec.ofNat 64 w)
-    let leak := if !hasGuard && leak == monS && r.sc.comp != "thread" && r.mon.grants.isEmpty && (status == "ok" || status == "stuck") then
+    let leak := if !hasGuard && leak == monS && r.sc.comp != "thread" && r.mon.grants.isEmpty && r.pendingRel.isEmpty &&
+        (status == "ok" || status == "stuck") then
         match busy with
         | (lk, w) :: _ => addMsg leak s!"guard: every guard has been released, but the word of lock {lk} (0x{String.ofList (Nat.toDigits 16 w)}) still shows a grant: a grant was dropped without being released, or released twice"
         | [] => leak
